@@ -253,6 +253,36 @@ def ref_minimizer(order, kmers, w):
     return [(p, kmers[p]) for p in out]
 
 
+def _errline(e):
+    """the exception class the documented contract prescribes for the refusal the reference raised"""
+    if isinstance(e, KeyError):
+        return "ERR:AlphabetError"
+    return "ERR:" + type(e).__name__
+
+
+def _refusal_problem(exp, got):
+    """exp is 'ERR' (any refusal) or 'ERR:<Class>' (exactly this refusal); returns a key suffix or None"""
+    if got.startswith("ok"):
+        return "accepted-invalid"
+    if exp != "ERR" and got != exp and got.startswith("ERR"):
+        return "wrong-refusal"
+    return None
+
+
+def _mat_dim(mat):
+    return int(round(len(mat.split(",")) ** 0.5))
+
+
+def _rule_ctor(mat, thr):
+    """ScoreThresholdRule(matrix, threshold): int32 threshold, symmetric matrix"""
+    if not -2**31 <= thr < 2**31:
+        raise OverflowError
+    m = [int(x) for x in mat.split(",")]
+    d = _mat_dim(mat)
+    if any(m[i * d + j] != m[j * d + i] for i in range(d) for j in range(d)):
+        raise ValueError
+
+
 def _ref_similar(n, k, mat, thr):
     """ScoreThresholdRule from the property statement: total substitution score of the two k-mers >= threshold."""
     m = [int(x) for x in mat.split(",")]
@@ -458,7 +488,7 @@ def _run_ops(ops):
         return L(np.array(xs, dtype=bool), rejectable)
 
     def mkseq(codes):
-        code = L(np.array(codes, dtype=np.uint8))
+        code = L(np.array(codes, dtype=st.get("cdtype", np.uint8)))
         if all(c < st["n"] for c in codes):
             s = bseq.GeneralSequence(st["base"])
             s.code = code
@@ -523,7 +553,9 @@ def _run_ops(ops):
             n, k = int(w[1]), int(w[2])
             sp = None if w[3] == "-" else _parse_nats(w[3])
             st.update(ka=None, n=n, k=k, sp=sp)
-            st["base"] = bseq.LetterAlphabet("ABCDEFGHIJKLMNOPQRSTUVWXYZ"[:n])
+            st["base"] = (bseq.LetterAlphabet("ABCDEFGHIJKLMNOPQRSTUVWXYZ"[:n]) if n <= 26
+                          else bseq.Alphabet(list(range(n))))       # more than 256 symbols: 16-bit symbol codes
+            st["cdtype"] = np.uint8 if n <= 256 else np.uint16
             arg = sp
             if sp is not None and sp and sp == sorted(set(sp)) and sp[0] == 0 and sum(sp) % 2 == 0:
                 arg = "".join("1" if i in sp else "0" for i in range(sp[-1] + 1))   # string form of the same model
@@ -540,7 +572,7 @@ def _run_ops(ops):
         if ka is None:
             return "no-alph"
         if c == "kmers":
-            return "ok " + _nats(ka.create_kmers(L(np.array(_parse_nats(w[1]), dtype=np.uint8))))
+            return "ok " + _nats(ka.create_kmers(L(np.array(_parse_nats(w[1]), dtype=st.get("cdtype", np.uint8)))))
         if c == "fuse":
             return f"ok {int(ka.fuse(i64(_parse_nats(w[1]))))}"
         if c == "simk":
@@ -615,6 +647,10 @@ def _run_ops(ops):
                 if not (nbk == clipped or (nbk >= want and all(nbk % d for d in range(2, int(nbk ** 0.5) + 1)) and nbk >= 2)):
                     line += " |bad-default-buckets"
             return line
+        if c == "posbad":
+            arr = np.zeros((2, 3), dtype=np.int64) if w[1] == "3col" else np.zeros(4, dtype=np.int64)
+            align.KmerTable.from_positions(ka, {0: arr})
+            return "ok"
         if c == "pos":
             g = Guard()
             d = {k: g.add(L(np.array(ps, dtype=np.int64).reshape(-1, 2))) for k, ps in _parse_dict(w[1])}
@@ -714,7 +750,8 @@ def _run_ops(ops):
                     return plain + " |cached " + cached
             return plain
         if c in ("minc", "mincq"):
-            sel = align.MincodeSelector(ka, S(int(w[1])), mkperm(w[2], ka))
+            comp = S(int(w[1])) if "/" not in w[1] else int(w[1].split("/")[0]) / int(w[1].split("/")[1])
+            sel = align.MincodeSelector(ka, comp, mkperm(w[2], ka))
             if c == "mincq":
                 return pairs(*sel.select(mkqseq(_parse_nats(w[3]), w[4]), alphabet_check=(w[5] == "1")))
             decoy(sel.select_from_kmers, np.array(_parse_nats(w[3]) + [0], dtype=np.int64))
@@ -947,11 +984,27 @@ def oracle(case):
                     key = K_FUSE if (len(codes) == k and max(codes) == n) else "C10/fuse/accepted-invalid"
                     bad(op, key, "ERR:AlphabetError", got)
                 continue
+            if c == "posbad":
+                exp = "ERR:IndexError" if w[1] == "3col" else "ERR:ValueError"
+                pr = _refusal_problem(exp, got)
+                if pr:
+                    bad(op, f"C10/from_positions/{pr}", exp, got)
+                continue
             if c == "simk":
                 q = int(w[1])
-                if q >= size:
-                    if got.startswith("ok"):
-                        bad(op, "C10/similar_kmers/accepted-invalid", "ERR", got)
+                exp = None
+                try:
+                    _rule_ctor(w[2], int(w[3]))
+                    if _mat_dim(w[2]) < n:
+                        raise ValueError
+                    if q >= size:
+                        raise KeyError
+                except (ValueError, OverflowError, KeyError) as e_:
+                    exp = _errline(e_)
+                if exp:
+                    pr = _refusal_problem(exp, got)
+                    if pr:
+                        bad(op, f"C10/similar_kmers/{pr}", exp, got)
                 else:
                     sim = _ref_similar(n, k, w[2], int(w[3]))
                     exp = "ok " + _nats(x for x in range(size) if sim(q, x))
@@ -977,6 +1030,8 @@ def oracle(case):
                 continue
             if c in ("seqs", "seqsx", "kms", "sel", "pos", "merge", "pickle"):
                 exp_items, tainted, err = None, False, False
+                err_exp = "ERR"
+                rid = []
                 nb = None
                 talph = (n, k, tuple(sorted(sp)) if sp is not None else None)
                 if c in ("seqs", "kms", "sel"):
@@ -1002,15 +1057,18 @@ def oracle(case):
                             keep = ref_kmer_keep(k, sp, m, len(s))
                             exp_items += [(q, r, j) for j, (q, kp) in enumerate(zip(km, keep)) if kp]
                         tainted = sp is not None and any(m is not None and any(m) for m in ms)
-                    except (ValueError, IndexError, KeyError):
+                    except (ValueError, IndexError, KeyError) as e_:
                         err = True
+                        err_exp = _errline(e_)
                 elif c == "kms":
                     kms = _parse_lists(w[3])
                     rid = list(range(len(kms))) if w[2] == "-" else _parse_nats(w[2])
                     ms = _parse_masks(w[4], len(kms)) or [None] * len(kms)
-                    if (len(rid) != len(kms) or len(ms) != len(kms) or any(q >= size for a in kms for q in a)
+                    if any(q >= size for a in kms for q in a):
+                        err, err_exp = True, "ERR:AlphabetError"
+                    elif (len(rid) != len(kms) or len(ms) != len(kms)
                             or any(m is not None and len(m) != len(a) for a, m in zip(kms, ms))):
-                        err = True
+                        err, err_exp = True, "ERR:IndexError"
                     else:
                         # from_kmers masks: True = keep this k-mer
                         exp_items = [(q, r, j) for r, a, m in zip(rid, kms, ms) for j, q in enumerate(a)
@@ -1018,15 +1076,17 @@ def oracle(case):
                 elif c == "sel":
                     poss, kms = _parse_lists(w[3]), _parse_lists(w[4])
                     rid = list(range(len(kms))) if w[2] == "-" else _parse_nats(w[2])
-                    if (len(rid) != len(kms) or len(poss) != len(kms) or any(q >= size for a in kms for q in a)
+                    if any(q >= size for a in kms for q in a):
+                        err, err_exp = True, "ERR:AlphabetError"
+                    elif (len(rid) != len(kms) or len(poss) != len(kms)
                             or any(len(p) != len(a) for p, a in zip(poss, kms))):
-                        err = True
+                        err, err_exp = True, "ERR:IndexError"
                     else:
                         exp_items = [(q, r, p) for r, ps, a in zip(rid, poss, kms) for p, q in zip(ps, a)]
                 elif c == "pos":
                     d = _parse_dict(w[1])
                     if any(q >= size for q, _ in d):
-                        err = True
+                        err, err_exp = True, "ERR:AlphabetError"
                     else:
                         exp_items = [(q, r, p) for q, ps in d for r, p in ps]
                 elif c == "merge":
@@ -1046,9 +1106,13 @@ def oracle(case):
                         continue
                     exp_items, tainted, nb = list(tables[i]["items"]), tables[i]["tainted"], tables[i]["nb"]
                     talph = tables[i]["alph"]
+                if not err and c in ("seqs", "kms", "sel") and any(not 0 <= r_ < 2**32 for r_ in rid):
+                    err, err_exp = True, "ERR:OverflowError"       # reference ids are stored as uint32
                 if err:
+                    pr = _refusal_problem(err_exp, got)
+                    if pr:
+                        bad(op, f"C10/{c}/{pr}", err_exp, got)
                     if got.startswith("ok"):
-                        bad(op, f"C10/{c}/accepted-invalid", "ERR", got)
                         tables.append({"items": [], "nb": nb, "tainted": True, "alph": talph})
                     continue
                 if c == "pickle":
@@ -1090,22 +1154,25 @@ def oracle(case):
                         exp = "ok " + _tuples((qi, r, p) for qi, (q, kp) in enumerate(zip(qk, keep)) if kp
                                               for (x, r, p) in items if x == q)
                         tainted = tainted or (sp is not None and mask is not None and any(mask))
-                    except (ValueError, IndexError, KeyError):
-                        exp = "ERR"
+                    except (ValueError, IndexError, KeyError) as e_:
+                        exp = _errline(e_)
                 elif c == "matchsim":
                     seq = _parse_nats(w[2])
                     mask = None if w[3] == "-" else _parse_bits(w[3])
                     sim = _ref_similar(n, k, w[4], int(w[5]))
                     try:
+                        _rule_ctor(w[4], int(w[5]))
                         if len(seq) < k:
                             raise ValueError
                         qk = ref_kmers(n, k, sp, seq)
                         keep = ref_kmer_keep(k, sp, mask, len(seq))
+                        if _mat_dim(w[4]) < n and any(keep):
+                            raise ValueError          # matrix alphabet does not extend the base alphabet
                         exp = "ok " + _tuples((qi, r, p) for qi, (q, kp) in enumerate(zip(qk, keep)) if kp
                                               for (x, r, p) in items if sim(q, x))
                         tainted = tainted or (sp is not None and mask is not None and any(mask))
-                    except (ValueError, IndexError, KeyError):
-                        exp = "ERR"
+                    except (ValueError, IndexError, KeyError, OverflowError) as e_:
+                        exp = _errline(e_)
                 elif c == "matchtabsim":
                     j = int(w[2])
                     if j >= len(tables):
@@ -1113,15 +1180,26 @@ def oracle(case):
                     O = tables[j]
                     tainted = tainted or O["tainted"]
                     sim = _ref_similar(n, k, w[3], int(w[4]))
-                    if (T["nb"] is None) != (O["nb"] is None) or (T["nb"] is not None and min(T["nb"], size) != min(O["nb"], size)):
+                    rule_err = None
+                    try:
+                        _rule_ctor(w[3], int(w[4]))
+                    except (ValueError, OverflowError) as e_:
+                        rule_err = _errline(e_)
+                    if rule_err:
+                        exp = rule_err
+                    elif (T["nb"] is None) != (O["nb"] is None) or (T["nb"] is not None and min(T["nb"], size) != min(O["nb"], size)):
                         exp = "ERR"
+                    elif _mat_dim(w[3]) < n and O["items"] and T["alph"] == O["alph"]:
+                        exp = "ERR:ValueError"
                     else:
                         exp = "ok " + _tuples((r2, p2, r1, p1) for (x2, r2, p2) in O["items"] for (x1, r1, p1) in items
                                               if sim(x2, x1))
                 elif c == "matchsel":
                     ps, ks = _parse_nats(w[2]), _parse_nats(w[3])
-                    if len(ps) != len(ks) or any(q >= size for q in ks):
-                        exp = "ERR"
+                    if any(q >= size for q in ks):
+                        exp = "ERR:AlphabetError"
+                    elif len(ps) != len(ks):
+                        exp = "ERR:IndexError"
                     else:
                         exp = "ok " + _tuples((p, r, j) for p, q in zip(ps, ks) for (x, r, j) in items if x == q)
                 elif c == "count":
@@ -1132,7 +1210,7 @@ def oracle(case):
                             exp = "ok " + _nats(sum(1 for x in items if x[0] == q) for q in range(size))
                     else:
                         ks = _parse_nats(w[2])
-                        exp = "ERR" if any(q >= size for q in ks) else "ok " + _nats(sum(1 for x in items if x[0] == q) for q in ks)
+                        exp = "ERR:AlphabetError" if any(q >= size for q in ks) else "ok " + _nats(sum(1 for x in items if x[0] == q) for q in ks)
                 elif c == "getkmers":
                     exp = "ok " + _nats(sorted({x[0] for x in items}))
                 elif c in ("iter", "rev"):
@@ -1140,7 +1218,8 @@ def oracle(case):
                     exp = "ERR" if T["nb"] is not None else "ok " + _nats(ks_ if c == "iter" else ks_[::-1])
                 elif c == "has":
                     q = int(w[2])
-                    exp = "ERR" if (T["nb"] is not None or q >= size) else "ok " + ("true" if any(x[0] == q for x in items) else "false")
+                    exp = ("ERR" if T["nb"] is not None else "ERR:IndexError" if q >= size
+                           else "ok " + ("true" if any(x[0] == q for x in items) else "false"))
                 elif c == "props":
                     if T["nb"] == "auto":
                         continue
@@ -1155,7 +1234,7 @@ def oracle(case):
                     exp = "ok " + ("|".join(lines) if lines else "_")
                 elif c == "get":
                     q = int(w[2])
-                    exp = "ERR" if q >= size else "ok " + _tuples((r, p) for (x, r, p) in items if x == q)
+                    exp = "ERR:AlphabetError" if q >= size else "ok " + _tuples((r, p) for (x, r, p) in items if x == q)
                     if exp != got and T["nb"] is not None and (q >= 2**32 or any(x[0] >= 2**32 for x in items)):
                         bad(op, K_GETITEM, exp, got)
                         continue
@@ -1193,9 +1272,10 @@ def oracle(case):
                     if got == "ok true" and same_content and T["alph"] != O["alph"]:
                         bad(op, K_EQ_SPACING, exp, got)
                         continue
-                if exp == "ERR":
-                    if got.startswith("ok"):
-                        bad(op, f"C10/{c}/accepted-invalid", "ERR", got)
+                if exp.startswith("ERR"):
+                    pr = _refusal_problem(exp, got)
+                    if pr:
+                        bad(op, f"C10/{c}/{pr}", exp, got)
                 elif got != exp:
                     bad(op, f"C10/{c}/mismatch", exp, got, tainted)
                 continue
@@ -1207,9 +1287,10 @@ def oracle(case):
                 except (ValueError, IndexError, KeyError):
                     exp = "ERR"
                     order = []
-                if exp == "ERR":
-                    if got.startswith("ok"):
-                        bad(op, "C10/minimizer/accepted-invalid", "ERR", got)
+                if exp.startswith("ERR"):
+                    pr = _refusal_problem(exp, got)
+                    if pr:
+                        bad(op, f"C10/minimizer/{pr}", exp, got)
                 elif got != exp:
                     bad(op, K_MINMAX if I64MAX in order else "C10/minimizer/mismatch", exp, got)
                 continue
@@ -1246,26 +1327,32 @@ def oracle(case):
                     exp = "ok " + _tuples(sel)
                 except (ValueError, IndexError, KeyError):
                     exp = "ERR"
-                if exp == "ERR":
-                    if got.startswith("ok"):
-                        bad(op, "C10/syncmer/accepted-invalid", "ERR", got)
+                if exp.startswith("ERR"):
+                    pr = _refusal_problem(exp, got)
+                    if pr:
+                        bad(op, f"C10/syncmer/{pr}", exp, got)
                 elif got != exp:
                     bad(op, K_MINMAX if (c == "sync" and I64MAX in order) else "C10/syncmer/mismatch", exp, got)
                 continue
             if c == "minc":
-                comp, perm, ks = int(w[1]), w[2], _parse_nats(w[3])
+                comp, perm, ks = Fraction(w[1]), w[2], _parse_nats(w[3])
                 try:
+                    if perm.startswith("freq:") and len(_parse_nats(perm[5:])) != size:
+                        raise IndexError
                     if comp < 1:
                         raise ValueError
                     order = ref_perm(perm, ks)
                     lo, rng_ = ref_perm_range(perm, size)
-                    thr = Fraction(lo) + Fraction(rng_, comp)
+                    thr = Fraction(lo) + Fraction(rng_) / comp
                     exp = "ok " + _tuples((i2, q) for i2, (q, o) in enumerate(zip(ks, order)) if Fraction(o) < thr)
-                except (ValueError, IndexError, KeyError):
+                except (ValueError, IndexError) as e_:
+                    exp = _errline(e_)
+                except KeyError:
                     exp = "ERR"
-                if exp == "ERR":
-                    if got.startswith("ok"):
-                        bad(op, "C10/mincode/accepted-invalid", "ERR", got)
+                if exp.startswith("ERR"):
+                    pr = _refusal_problem(exp, got)
+                    if pr:
+                        bad(op, f"C10/mincode/{pr}", exp, got)
                 elif got != exp:
                     bad(op, "C10/mincode/mismatch", exp, got)
                 continue
@@ -1934,6 +2021,63 @@ def _seqsx_case(rng):
     return {"kind": "seqsx", "ops": ops}
 
 
+def _audit_case(rng):
+    """Regions the hypotheses / generator filters used to exclude: reference ids at and beyond the uint32 range,
+    fractional compression factors, asymmetric / too small substitution matrices and thresholds beyond int32,
+    frequency tables of the wrong length, position arrays that are not (n, 2), merging nothing, alphabets with more
+    than 256 symbols."""
+    r = rng.random()
+    if r < 0.2:
+        n, k = rng.choice([(2, 2), (3, 2), (4, 3)])
+        nb = _nb(rng)
+        seqs = [_seq(rng, n, k + rng.randint(0, 4), False) for _ in range(rng.randint(1, 3))]
+        rid = [rng.choice([0, 7, 2**32 - 1, 2**32 - 1, 2**32, -1, -5, 2**40]) for _ in seqs]
+        ops = [f"alph {n} {k} -", f"seqs {nb} {','.join(map(str, rid))} {_lists(seqs)} -"]
+        ks = [rng.randrange(n ** k) for _ in range(3)]
+        ops.append(f"kms {nb} {rng.choice([0, 2**32 - 1, 2**32, -1])} {_nats(ks)} -")
+        ops += ["dump 0", f"match 0 {_nats(seqs[0])} -"]
+    elif r < 0.4:
+        n, k = rng.choice([(2, 2), (3, 2), (2, 3), (3, 3)])
+        size = n ** k
+        ops = [f"alph {n} {k} -"]
+        for _ in range(3):
+            comp = rng.choice(["3/2", "5/2", "5/4", "7/4", "9/8", "1/2", "3/4", "4/4", "8/2", "7/2"])
+            perm = rng.choice(["-", "-", "rand", "freq:" + _nats(rng.choice([0, 1, 3]) for _ in range(size)),
+                               "freq:" + _nats(rng.choice([0, 1]) for _ in range(size + rng.choice([-1, 1, 5])))])
+            ops.append(f"minc {comp} {perm} {_nats(range(size))}")
+        ops.append(f"minim 2 freq:{_nats(0 for _ in range(size - 1))} {_nats(range(size))}")
+    elif r < 0.7:
+        n = rng.choice([2, 3, 4])
+        k = rng.choice([2, 3])
+        nb = _nb(rng)
+        ref = _seq(rng, n, k + 4, False)
+        ops = [f"alph {n} {k} -", f"seqs {nb} - {_nats(ref)} -"]
+        dim = rng.choice([n, n, n - 1, n - 1, n + 1])
+        m = [[rng.randint(-2, 4) for _ in range(dim)] for _ in range(dim)]
+        if rng.random() < 0.5:
+            for i in range(dim):
+                for j in range(i):
+                    m[i][j] = m[j][i]
+        mat = ",".join(str(m[i][j]) for i in range(dim) for j in range(dim))
+        thr = rng.choice([0, 1, 2, 2**31 - 1, 2**31, -2**31, -2**31 - 1])
+        q = ref[1:k + 2]
+        mask = rng.choice(["-", "-", _bits([True] * len(q)), _bits(_mask(rng, len(q)))])
+        ops += [f"simk {rng.randrange(n ** k)} {mat} {thr}", f"matchsim 0 {_nats(q)} {mask} {mat} {thr}",
+                f"kms {nb} - {_nats([] if rng.random() < 0.3 else [0, 1])} -", f"matchtabsim 0 1 {mat} {thr}"]
+    elif r < 0.85:
+        n, k = rng.choice([(300, 2), (257, 2), (256, 2), (300, 3), (1000, 2)])
+        nb = rng.choice(["d", 7, 101]) if n ** k <= 100000 else rng.choice([7, 101])
+        seqs = [[rng.choice([0, 1, min(255, n - 1), min(256, n - 1), n - 1, n - 2, rng.randrange(n)]) for _ in range(k + rng.randint(0, 5))]
+                for _ in range(2)]
+        ops = [f"alph {n} {k} -", f"kmers {_nats(seqs[0])}", f"seqs {nb} - {_lists(seqs)} -", "dump 0",
+               f"match 0 {_nats(seqs[1])} -", f"count 0 {_nats(ref_kmers(n, k, None, seqs[0]))}",
+               f"split {rng.randrange(n ** k)}", f"kmers {_nats(seqs[0][:-1] + [n])}"]
+    else:
+        n, k = 3, 2
+        ops = [f"alph {n} {k} -", "posbad 3col", "posbad 1d", "merge _", f"kms d - 0,1 -", "merge 0", "dump 1"]
+    return {"kind": "audit", "ops": ops}
+
+
 def _similarity_case(rng):
     n = rng.choice([2, 3, 4])
     k = rng.choice([2, 3])
@@ -1969,6 +2113,8 @@ def cases(rng, tier):
         yield _qalph_case(rng)
     for _ in range(70 if tier == "quick" else 600):
         yield _api_case(rng)
+    for _ in range(90 if tier == "quick" else 700):
+        yield _audit_case(rng)
     for _ in range(70 if tier == "quick" else 600):
         yield _selseq_case(rng)
     for _ in range(60 if tier == "quick" else 500):
